@@ -295,7 +295,8 @@ func (g *Gen) genProgram(v2 bool, npk int, depth int) ([]GenPkg, []string) {
 					fmt.Fprintf(&methods, "func (r %s) String() string { panic(\"x\") }\n\n", d.n.name)
 				}
 			case "other":
-				switch g.R.Intn(4) {
+				otherKind := g.R.Intn(4)
+				switch otherKind {
 				case 0:
 					fmt.Fprintf(&b, "type %s *%s\n\n", d.n.name, pg.ty(p, 1, true, di))
 				case 1:
@@ -312,6 +313,11 @@ func (g *Gen) genProgram(v2 bool, npk int, depth int) ([]GenPkg, []string) {
 				}
 				setByVal(p, d.n.name, false)
 				pg.classes["defined-pointer-array-chan-func"] = true
+				if otherKind != 0 && g.Chance(0.5) {
+					// methods on a defined array / channel / function type (a defined pointer type can have none)
+					fmt.Fprintf(&methods, "func (r %s) Describe() string { return \"\" }\n\nfunc (r *%s) Reset(n int) {}\n\n", d.n.name, d.n.name)
+					pg.classes["methods-on-defined-array-chan-func"] = true
+				}
 			case "floatdecl":
 				if g.Chance(0.5) {
 					fmt.Fprintf(&b, "type float float64\n\n")
